@@ -444,6 +444,32 @@ def oracle_reclass(c, a, bins, newv, st, out):
     return None
 
 
+def shrink_reclass(c, bad):
+    """a smaller case that still fails: one cell on the numpy backend, then as few bins as possible"""
+    def fails(c2):
+        try:
+            return oracle_reclass(c2, *run_reclass(c2))
+        except Exception:  # noqa: BLE001 -- a candidate the code cannot digest is simply not a smaller failing case
+            return None
+    if len(c["bins"]) != len(c["newv"]):
+        return c, bad
+    for t in c["raster"]["vals"]:
+        c2 = dict(c, raster=dict(c["raster"], shape=[1, 1], vals=[t]), backend="numpy")
+        b2 = fails(c2)
+        if b2:
+            c, bad = c2, b2
+            break
+    i = 0
+    while len(c["bins"]) > 1 and i < len(c["bins"]):
+        c2 = dict(c, bins=c["bins"][:i] + c["bins"][i + 1:], newv=c["newv"][:i] + c["newv"][i + 1:])
+        b2 = fails(c2)
+        if b2:
+            c, bad = c2, b2
+        else:
+            i += 1
+    return c, bad
+
+
 def gen_binary(rng):
     a, kind = gen_raster(rng, kind=rng.choice(["small", "ties", "half", "f32x"]))
     flat = [v for v in a.ravel().tolist() if isfin(v)]
@@ -887,6 +913,7 @@ def eval_case_(r, c, drv_reply=None, stream=None):
         a, bins, newv, st, out = run_reclass(c)
         bad = oracle_reclass(c, a, bins, newv, st, out)
         if bad:
+            c, bad = shrink_reclass(c, bad)
             r.fail("reclassify:first-bin", bad, c)
             return True
         if drv_reply is not None and st == "ok":
@@ -952,7 +979,8 @@ def model_request(c):
     if kind == "reclassify":
         if len(c["bins"]) != len(c["newv"]) or not c["bins"]:
             return None
-        return f"bin bins={','.join(c['bins'])} newv={','.join(c['newv'])} vals={cells_tok(a)}"
+        # through `_run_numpy_bin`'s casts as read from the source (Gen.runBinCasts), for this raster dtype
+        return f"bin bins={','.join(c['bins'])} newv={','.join(c['newv'])} vals={cells_tok(a)} ddt={a.dtype.name}"
     if kind == "binary":
         h, w = a.shape
         vals = [untok(t) for t in c["values"]]
@@ -1020,12 +1048,34 @@ def stream_jenks(r, drv, cases):
         check_jenks(r, c, reps[2 * i], reps[2 * i + 1])
 
 
+def stream_round32(r, drv, n):
+    """the driver's `roundF32` (used when the source casts an operand to float32) against numpy's conversion"""
+    rng = r.rng
+    xs = []
+    for _ in range(n):
+        b = edge_base(rng)
+        if not abs(b) < 3e38:
+            continue
+        x = float(np.float32(b))
+        up = nx32(x, True)
+        xs += [b, x] + ([(x + up) / 2, nx64((x + up) / 2, True), nx64((x + up) / 2, False)] if math.isfinite(up) else [])
+    reps = drv.ask([f"round32 q={tok(x)}" for x in xs])
+    for x, rep in zip(xs, reps):
+        r.case(dict(kind="round32", x=tok(x)), nontrivial=True, tags=["round32"])
+        try:
+            ok = Fraction(rep) == Fraction(float(np.float32(x)))
+        except ValueError:
+            ok = False
+        if not ok:
+            r.disagree("round32", dict(kind="round32", x=tok(x)), tok(float(np.float32(x))), rep[:80])
+
+
 def check_facts(r, drv):
     """the generated facts the theorems rely on must be what the driver was built with"""
     rep = drv.ask(["class_facts"])[0]
     r.extra["class_facts"] = rep
     want = ["shape_ok=true", "canonical=true", "kclass=float64", "nb_jenks=true", "nb_fallback=true", "qgrid=true",
-            "eqint=true"]
+            "eqint=true", "casts=true", "chain=true"]
     missing = [w for w in want if w not in rep.split()]
     if missing:
         r.notes.append("generated facts differ from what Props/C12.lean requires: " + ", ".join(missing))
@@ -1039,7 +1089,9 @@ def run(r, scale=1):
               "positions + NaN/inf, 5 dtype pairs) + random ascending/+-inf/unsorted/NaN bins; classifiers: rasters <= 4x5 on "
               "integer / half-integer / wide lattices, ties, NaN/+-inf cells, float32/float64/int32/int64, values not "
               "representable in float32 (0.1, 1/3, 2^24+1, ...), numpy and dask backends, k in 1..12 (+23/29/31/36 for "
-              "quantile), sampled natural_breaks; Jenks tables on sorted samples n <= 9 (12 thorough) against brute force. "
+              "quantile), sampled natural_breaks; precision edges (reclassify, _cpu_bin): float32 / float64 / int32 / int64 "
+              "cells with float64 bounds on, one ulp of either precision beside, and half way between the cells "
+              "(decimals, thirds, integers beyond 2^24, subnormals, 1e38), through _run_numpy_bin's casts; Jenks tables on sorted samples n <= 9 (12 thorough) against brute force. "
               "non-trivial = distinct case with at least two distinct finite values")
     try:
         check_facts(r, drv)
@@ -1052,6 +1104,7 @@ def run(r, scale=1):
         res = eval_case(r, c)
     stream_cpu_bin(r, drv)
     rng = r.rng
+    stream_round32(r, drv, 60 * n)
     stream_generic(r, drv, "reclassify", [gen_reclass(rng) for _ in range(250 * n)])
     stream_generic(r, drv, "binary", [gen_binary(rng) for _ in range(200 * n)])
     stream_generic(r, drv, "equal_interval", [gen_equal_interval(rng) for _ in range(250 * n)]
